@@ -79,6 +79,7 @@ T = [
     ("kf-zwj-force-merge", 1, 12, 3, 1, [IN("a"), IN("‍"), IN("bc")], False),
     ("kf-zero-width-format-char", 1, 12, 3, 1, [IN("a­b"), IN("­"), IN("c")], False),
     ("kf-keep-wide-run", 0, 12, 3, 0, [IN("\U0001F439\U0001F439" + E + "[1;2H" + "xy")], False),
+    ("kf-autowrap-not-reported", 0, 6, 3, 0, [IN(E + "[?7h" + "abcdefgh" + E + "[?7l" + "ijklmnop" + E + "[?1049h" + E + "[?7h" + E + "[?1049l" + "q")], True),
     ("kf-keep-wide-run-edge", 0, 4, 3, 0, [IN("ab\U0001F439" + E + "[1;4H" + "x")], False),
 ]
 
